@@ -54,9 +54,13 @@ struct carquet_bloom_filter {
 
 /**
  * Generate block index from hash.
+ *
+ * Parquet split-block Bloom filter: the upper 32 bits of the hash are mapped
+ * onto [0, num_blocks) by multiply-shift (not by modulo), so that filters are
+ * interchangeable with other implementations.
  */
 static inline size_t bloom_filter_block_index(uint64_t hash, size_t num_blocks) {
-    return (size_t)((hash >> 32) % num_blocks);
+    return (size_t)(((hash >> 32) * (uint64_t)num_blocks) >> 32);
 }
 
 /**
